@@ -193,6 +193,26 @@ impl FieldType for A64 {
     }
 }
 
+/// Alignment 128 (two cache lines).
+#[derive(Clone, Copy, Debug, PartialEq, Eq, Serialize, Deserialize)]
+#[repr(align(128))]
+pub struct A128(pub u16);
+
+impl FieldType for A128 {
+    fn make(seed: u64) -> Self {
+        A128(mix(seed) as u16)
+    }
+    fn digest(&self) -> u64 {
+        self.0 as u64
+    }
+    fn expect(seed: u64) -> u64 {
+        (mix(seed) as u16) as u64
+    }
+    fn mutate(&mut self, seed: u64) {
+        self.0 = mix(seed) as u16;
+    }
+}
+
 /// 320 bytes of plain data.
 #[derive(Clone, Copy, Debug, PartialEq, Eq)]
 pub struct Wide320(pub [u64; 40]);
@@ -768,7 +788,7 @@ mod tests {
         law::<()>(); law::<[u8; 3]>(); law::<[u16; 3]>(); law::<[u32; 3]>(); law::<[u64; 3]>(); law::<[u64; 0]>(); law::<[u8; 5]>();
         law::<(u8, u32)>(); law::<A16>(); law::<A32>(); law::<Z16>(); law::<String>(); law::<Vec<u32>>(); law::<Box<str>>();
         law::<Option<String>>(); law::<[String; 2]>(); law::<Tok8>(); law::<Tok4>(); law::<Tok12>(); law::<Tok16>();
-        law::<TokBox>(); law::<Tok3>(); law::<TokZ>(); law::<BigTok>(); law::<Vec<Tok8>>(); law::<[u64; 12]>(); law::<A64>(); law::<Wide320>(); law::<HugeTok>(); law::<Tok256>(); law::<f64>(); law::<fn(u32) -> u32>(); law::<*const u8>(); law::<Box<dyn Fn(u32) -> u32 + Send + Sync>>(); law::<string::String<8>>();
+        law::<TokBox>(); law::<Tok3>(); law::<TokZ>(); law::<BigTok>(); law::<Vec<Tok8>>(); law::<[u64; 12]>(); law::<A64>(); law::<Wide320>(); law::<HugeTok>(); law::<Tok256>(); law::<A128>(); law::<f64>(); law::<fn(u32) -> u32>(); law::<*const u8>(); law::<Box<dyn Fn(u32) -> u32 + Send + Sync>>(); law::<string::String<8>>();
         assert!(crate::ledger_live().is_empty());
         assert_eq!(crate::zst_live(), 0);
         assert!(crate::ledger_take_errors().is_empty());
